@@ -85,12 +85,16 @@ def c20_family(seed, quick):
     out.append(render({"x": 1, "f": 1}, [["spawn 1", "blockon 0 3", "join 1", "awtake 0"], ["awwake 0"]]))
     out.append(render({"x": 1, "f": 1}, [["blockon 0 4", "awtake 0"]]))
     out.append(render({"x": 1, "f": 1}, [["blockon 0 4"]]))          # the registration is leaked
+    # a future that wakes itself by reference during its first poll, when no clone of the waker exists
+    out.append(render({"x": 1, "f": 1}, [["blockon 0 5"]]))
+    out.append(render({"x": 2, "f": 2}, [["spawn 1", "blockon 0 5", "join 1"], ["blockon 1 5"]]))
+    out.append(render({"x": 2, "f": 2}, [["spawn 1", "blockon 0 5", "blockon 1 0", "join 1"], ["wake 1"]]))
     # nobody ever wakes: a deadlock must be reported
     out.append("cfg x=1 f=1 | T0: blockon 0 0")
     out.append("cfg x=1 f=1 | T0: blockon 0 1")
     if len(out) > (60 if quick else 10 ** 6):
-        keep = out[-18:]
-        idx = sorted(range(len(out) - 18), key=lambda i: (r.next(), i))[:42]
+        keep = out[-21:]
+        idx = sorted(range(len(out) - 21), key=lambda i: (r.next(), i))[:39]
         out = [out[i] for i in sorted(idx)] + keep
     return list(dict.fromkeys(out))
 
